@@ -308,6 +308,15 @@ def compare_training(wd, lines, enc, acc, case, raw_bytes=None, keep_existing=Fa
             got = list(getattr(sg, attr))
             if got != want:
                 fails.append(('terminal-scorer', '%s/1.txt: scorer loader %d values, file has %d%s' % (folder, len(got), len(want), first_diff(got, want))))
+    # ---- e-mail providers and website hosts (read by the guesser only: the E and W variables of PRINCE structures)
+    for rel, k in ((('Emails', 'email_providers.txt'), 'E'), (('Websites', 'website_hosts.txt'), 'W')):
+        fpath = os.path.join(base, *rel)
+        if not os.path.exists(fpath) or gg is None:
+            continue
+        want = [v for v, _ in P.read_list(fpath, enc)]
+        got = [v for grp in gg.grammar.get(k, []) for v in grp['values']]
+        if got != want:
+            fails.append(('terminal-guesser', '%s: guesser loader %d values %r, file has %d%s' % ('/'.join(rel), len(got), got[:6], len(want), first_diff(got, want))))
     # ---- config.ini names exactly the files that exist
     import configparser
     import json
@@ -469,7 +478,10 @@ def run_retrain(enc, tier, acc):
 
 # years are 19xx / 20xx with any two characters that str.isdigit() accepts (Arabic-Indic, superscript, fullwidth digits); context strings are a fixed list
 FLAT_LISTS = [['love2019', 'pass20\u0661\u0669', 'x20\u00b2\u00b34', '#1abc', 'i<3you', '1999x', 'love2019', 'ab19\uff11\uff12'],
-              ['pass20\u00b2\u00b3', 'love1999', '#1x', 'caf\u00e92010', ';pabc'], ['1999', '2010', 'abc#1', 'no.1x']]
+              ['pass20\u00b2\u00b3', 'love1999', '#1x', 'caf\u00e92010', ';pabc'], ['1999', '2010', 'abc#1', 'no.1x'],
+              # e-mail providers and website hosts
+              ['bob@gmail.com', 'amy@gmail.com', 'x@aol.com', 'www.site.com', 'site.com', 'http://foo.org', 'caf\u00e9@web.de', 'love2019', 'x.net1'],
+              ['a@b.com', 'password1'], ['www.site.org', 'password1']]
 
 
 def run_flat(tier, acc):
